@@ -58,8 +58,8 @@ fn prop_gen(prop: &str, rng: &mut Rng, idx: usize, tier: Tier) -> CaseOut {
         "C04" => props::c04::generate(rng, idx, tier),
         "C15" => props::scope::generate_c15(rng, idx, tier),
         "C16" => props::scope::generate_c16(rng, idx, tier),
-        "C01" => props::drift::generate(rng, idx, tier, false),
-        "C02" => props::drift::generate(rng, idx, tier, idx % 2 == 1),
+        "C01" => props::drift::generate(rng, idx, tier, false, false),
+        "C02" => props::drift::generate(rng, idx, tier, idx % 2 == 1, true),
         "C03" => props::blocksgen::generate(props::blocksgen::Mode::Blocks, rng, idx, tier),
         "C05" => props::blocksgen::generate(props::blocksgen::Mode::Tags, rng, idx, tier),
         "C12" => props::blocksgen::generate(props::blocksgen::Mode::Damaged, rng, idx, tier),
